@@ -32,6 +32,7 @@ type FuncContract struct {
 	LoopDec    map[int]*Clause
 	LoopMod    map[int][]string
 	CallAsrt   []*Clause
+	RetAsrt    []*Clause // assert at return K EXPR
 	Modifies   []string
 	HasMod     bool
 	Trusted    bool
@@ -224,6 +225,10 @@ func parseContractFile(path string) (*PkgContracts, error) {
 			case "assert":
 				// assert at call callee#k EXPR
 				f := strings.SplitN(rest, " ", 4)
+				if len(f) == 4 && f[0] == "at" && f[1] == "return" {
+					cur.RetAsrt = append(cur.RetAsrt, &Clause{Kind: "assertret", Site: "return#" + f[2], Text: f[3], Line: it.line})
+					break
+				}
 				if len(f) < 4 || f[0] != "at" || f[1] != "call" {
 					return nil, fmt.Errorf("%s:%d: bad assert clause", path, it.line)
 				}
@@ -268,5 +273,6 @@ func (fc *FuncContract) allClauses() []*Clause {
 		out = append(out, c)
 	}
 	out = append(out, fc.CallAsrt...)
+	out = append(out, fc.RetAsrt...)
 	return out
 }
